@@ -373,7 +373,7 @@ func (o *Obligation) smtText(q Query, withModel bool) string {
 		b.WriteString(p.S)
 		b.WriteString(")\n")
 	}
-	if o.Expect == "sat" {
+	if o.Expect == "sat" || o.Expect == "sat-any" {
 		// vacuity probe: assumptions alone must be satisfiable (goal ignored)
 	} else {
 		b.WriteString("(assert (not ")
@@ -511,6 +511,32 @@ func (r *Runner) solveOne(o *Obligation) {
 	}
 	o.Status = "discharged"
 	var details []string
+	if o.Expect == "sat-any" {
+		// passes as soon as one path is not refuted
+		o.Status = "failed"
+		for qi, q := range o.Queries {
+			file := filepath.Join(r.OutDir, sanitizeFile(o.Name)+fmt.Sprintf("__q%d.smt2", qi))
+			os.WriteFile(file, []byte(o.smtText(q, false)), 0o644)
+			o.Files = append(o.Files, file)
+			res, all := solveQuery(file, min(r.Timeout, 3), "sat")
+			r.mu.Lock()
+			for _, a := range all {
+				r.SolverSecs[a.solver] += a.secs
+			}
+			r.mu.Unlock()
+			o.Seconds += res.secs
+			if res.verdict != "unsat" {
+				o.Status = "discharged"
+				o.Solver = res.solver
+				break
+			}
+			details = append(details, fmt.Sprintf("q%d: path unreachable (%s)", qi, res.solver))
+		}
+		if o.Status == "failed" {
+			o.Detail = "no symbolic path reaches this point under the stated invariants: " + strings.Join(details, "; ")
+		}
+		return
+	}
 	for qi, q := range o.Queries {
 		if o.Expect != "sat" && q.Goal.S == "true" {
 			continue
